@@ -495,3 +495,5 @@ m('c11-r4-owner-truncated-after-extend', 'C11', 'C11-R4', 'osu::difficulty::grad
 m('c06-r3-mania-skips-stable-sort', 'C06', 'C06-R3', 'tandem-sort:every-path', diff='selftest/seed_diffs/C06-7.diff')
 m('c12-r7-state-drops-n-geki', 'C12', 'C12-R7', 'state:every-field', diff='selftest/seed_diffs/C12-7.diff')
 m('c05-r5-dual-stages-overflow-column-set', 'C05', 'C05-R5', 'column-set-width', diff='selftest/seed_diffs/C05-7.diff')
+m('c02-r8-speed-skipped-in-forwarder-only', 'C02', 'C02-R8', 'osu:same-feeding', diff='selftest/seed_diffs/C03-7.diff')
+m('c03-r3-speed-skipped-in-forwarder-only', 'C03', 'C03-R3', 'osu:same-feeding', diff='selftest/seed_diffs/C03-7.diff')
